@@ -99,11 +99,17 @@ structure DecodedMap where
   names : List String
   tokens : List RTok
 
-def decodeMapJson (txt : String) : Except String DecodedMap :=
+def decodeMapJson (txt : String) (applyRoot : Bool := true) : Except String DecodedMap :=
   match J.parse txt with
   | .error e => .error ("map is not JSON: " ++ e)
   | .ok j =>
-    let sources := (j.getD "sources").arrD.map J.strD
+    -- a consumer resolves every relative source against `sourceRoot` (as the `sourcemap` crate does)
+    let root := (j.getD "sourceRoot").strD
+    let rootT := String.ofList (root.toList.reverse.dropWhile (· == '/')).reverse
+    let resolve := fun (s : String) =>
+      if !applyRoot || root.isEmpty || s.startsWith "/" || s.startsWith "http:" || s.startsWith "https:" then s
+      else rootT ++ "/" ++ s
+    let sources := (j.getD "sources").arrD.map fun x => resolve x.strD
     let names := (j.getD "names").arrD.map J.strD
     match decodeMappings (j.getD "mappings").strD with
     | none => .error "mappings do not decode"
